@@ -78,7 +78,7 @@ bool chain_parse(chain_t *c, const char *spec)
 		for (char *t = strtok_r(ft, ":", &s2); t != NULL && nf < 10; t = strtok_r(NULL, ":", &s2))
 			fld[nf++] = t;
 		const int i = c->n;
-		if ((!strcmp(fld[0], "L2") || !strcmp(fld[0], "L1")) && nf == 8) {
+		if ((!strcmp(fld[0], "L2") || !strcmp(fld[0], "L1")) && nf >= 8 && nf <= 10) {
 			lzma_options_lzma *o = &c->lz[i];
 			if (lzma_lzma_preset(o, (uint32_t)strtoul(fld[1], NULL, 10))) { ok = false; break; }
 			o->lc = (uint32_t)strtoul(fld[2], NULL, 10);
@@ -87,6 +87,9 @@ bool chain_parse(chain_t *c, const char *spec)
 			if (strtoul(fld[5], NULL, 10)) o->dict_size = (uint32_t)strtoul(fld[5], NULL, 10);
 			if (strtoul(fld[6], NULL, 10)) o->mf = (lzma_match_finder)strtoul(fld[6], NULL, 10);
 			if (strtoul(fld[7], NULL, 10)) o->nice_len = (uint32_t)strtoul(fld[7], NULL, 10);
+			// optional: mode (1 fast, 2 normal; 0 = keep the preset's), depth
+			if (nf >= 9 && strtoul(fld[8], NULL, 10)) o->mode = (lzma_mode)strtoul(fld[8], NULL, 10);
+			if (nf >= 10) o->depth = (uint32_t)strtoul(fld[9], NULL, 10);
 			c->f[i].id = fld[0][1] == '2' ? LZMA_FILTER_LZMA2 : LZMA_FILTER_LZMA1;
 			c->f[i].options = o;
 			if (fld[0][1] == '1') c->has_lzma1 = true;
@@ -116,6 +119,29 @@ bool chain_parse(chain_t *c, const char *spec)
 	c->f[c->n].options = NULL;
 	c->last_is_lzma2 = c->n > 0 && c->f[c->n - 1].id == LZMA_FILTER_LZMA2;
 	return ok && c->n > 0;
+}
+
+bool chain_header_string(const chain_t *c, char *buf, size_t n)
+{
+	size_t pos = 0;
+	buf[0] = 0;
+	for (int i = 0; i < c->n; ++i) {
+		uint32_t psz = 0;
+		uint8_t props[16];
+		if (c->f[i].id >= (LZMA_VLI_C(1) << 62) || lzma_properties_size(&psz, &c->f[i]) != LZMA_OK || psz > sizeof(props)
+				|| lzma_properties_encode(&c->f[i], props) != LZMA_OK)
+			return false;
+		int k = snprintf(buf + pos, n - pos, "%s%" PRIu64 ":", i ? "/" : "", (uint64_t)c->f[i].id);
+		if (k < 0 || (size_t)k >= n - pos) return false;
+		pos += (size_t)k;
+		if (psz == 0) { if (pos + 2 > n) return false; buf[pos++] = '-'; buf[pos] = 0; }
+		for (uint32_t j = 0; j < psz; ++j) {
+			if (pos + 3 > n) return false;
+			snprintf(buf + pos, n - pos, "%02x", props[j]);
+			pos += 2;
+		}
+	}
+	return true;
 }
 
 // ---- LZMA2 chunk framing ------------------------------------------------------------------------------
@@ -226,14 +252,20 @@ void xz_walk(const uint8_t *p, size_t n, xz_walk_t *x, str_t *s)
 		st_printf(s, ";f=");
 		const unsigned nf = (h[1] & 3) + 1;
 		bool fbad = false;
+		str_t fl = {0};
 		for (unsigned i = 0; i < nf; ++i) {
 			uint64_t id, psz;
 			if (!vli_get(h, hs - 4, &hp, &id) || !vli_get(h, hs - 4, &hp, &psz) || psz > hs - 4 - hp) { fbad = true; break; }
-			st_printf(s, "%s%" PRIu64 ":", i ? "/" : "", id);
-			if (psz == 0) st_printf(s, "-");
-			for (uint64_t k = 0; k < psz; ++k) st_printf(s, "%02x", h[hp + k]);
+			st_printf(&fl, "%s%" PRIu64 ":", i ? "/" : "", id);
+			if (psz == 0) st_printf(&fl, "-");
+			for (uint64_t k = 0; k < psz; ++k) st_printf(&fl, "%02x", h[hp + k]);
 			hp += (size_t)psz;
 		}
+		if (fl.p != NULL) {
+			st_printf(s, "%s", fl.p);
+			snprintf(b->filters, sizeof(b->filters), "%s", fl.p);
+		}
+		st_free(&fl);
 		if (fbad) { x->bad = true; x->why = "block-header-filters"; break; }
 		for (; hp < hs - 4; ++hp) if (h[hp] != 0) { fbad = true; }
 		if (fbad) { x->bad = true; x->why = "block-header-padding"; break; }
